@@ -90,11 +90,15 @@ func preBlock(fw *formatWriter, source []byte, cursor *commonmark.Cursor) (child
 		}
 		return "", true
 	case commonmark.ThematicBreakKind:
-		if fw.hasWritten {
-			fw.s("\n---\n\n")
-		} else {
+		switch {
+		case !fw.hasWritten:
 			// Disambiguate from front matter.
 			fw.s("***\n\n")
+		case cursor.ParentBlock().IsTightList():
+			// A blank line after the break would make the list loose.
+			fw.s("\n---\n")
+		default:
+			fw.s("\n---\n\n")
 		}
 		return "", true
 	case commonmark.ListKind:
@@ -202,7 +206,13 @@ func postBlock(fw *formatWriter, source []byte, cursor *commonmark.Cursor) {
 			fw.s("\n")
 		}
 	case commonmark.ListItemKind:
-		fw.s("\n")
+		// Only a paragraph in a tight list leaves its line open.
+		// Any other last block has ended its line already:
+		// another line ending would put a blank line after the item
+		// and turn a tight list into a loose one.
+		if fw.startedLine {
+			fw.s("\n")
+		}
 	case commonmark.IndentedCodeBlockKind, commonmark.FencedCodeBlockKind:
 		c := [1]byte{codeFenceChar(source, b)}
 		for i, n := 0, codeFenceLength(source, b); i < n; i++ {
